@@ -134,6 +134,14 @@ func (e *Engine) globalFacts(st *State, g *ssa.Global, v Val) {
 				st.assume("(> " + v.T + " 0)")
 			}
 		}
+	case *ssa.Call:
+		if c := x.Call.StaticCallee(); c != nil && v.K == KIface {
+			switch c.String() {
+			case "errors.New", "fmt.Errorf", "github.com/pkg/errors.New", "github.com/pkg/errors.Errorf":
+				st.assume(not(eq(v.X[0], "0")))
+				st.assume("(> " + v.T + " 0)")
+			}
+		}
 	case *ssa.Const:
 		if x.Value != nil {
 			cv := e.constVal(st, x)
